@@ -37,7 +37,7 @@ def host_has_aes():
     return False
 
 
-CFG_HEADER = {"aesni": "aesni.h", "sw": "none.h", "nicpu0": "aesni_nocpuid.h", "aesni_wa": "aesni.h"}
+CFG_HEADER = {"aesni": "aesni.h", "sw": "none.h", "nicpu0": "aesni_nocpuid.h", "aesni_wa": "aesni.h", "aesni_m8": "aesni.h"}
 # aesni_wa: the AES-NI build as cpusupport.sh configures it for compilers without _mm_loadu_si64
 # (its last CFLAGS alternative, -DBROKEN_MM_LOADU_SI64): crypto_aesctr_aesni.c then loads the nonce
 # and the block counter through the documented work-around branch of load_si64()
@@ -48,6 +48,11 @@ def build(cfg, wipe=False):
     """cfg in {'aesni', 'sw', 'nicpu0'}; returns (exe, err).  nicpu0 = the AES-NI build whose run-time
     CPU detection answers "no AES-NI" (compiled without the CPUID probe)."""
     name = "drv_aes_%s%s" % (cfg, "_wipe" if wipe else "_asan")
+    if cfg == "aesni_m8":
+        # AES-NI build whose library allocations are 8 (not 16) bytes aligned: harness/drv_aes.c DRV_MALLOC8
+        return vlib.build_c(name, "drv_aes.c", SRCS_NI, cflags=QUIET + ["-DDRV_MALLOC8", "-fno-builtin-malloc", "-fno-builtin-free"],
+                            ldflags=["-lcrypto"], wraps=["malloc", "free"], asan=True,
+                            cpuconfig=os.path.join(CPUCFG, "aesni.h"), per_file_flags=NI_FLAGS)
     ni = cfg in ("aesni", "nicpu0", "aesni_wa")
     return vlib.build_c(
         name, "drv_aes.c", SRCS_NI if ni else SRCS_SW,
@@ -71,9 +76,9 @@ def active_path(ctx, sub, exe, cfg):
     """Which implementation did the library select?  A build that silently fell back is not covered."""
     rc, lines, err = vlib.run_lines(exe, "path\n", timeout=60, env={"ASAN_OPTIONS": "detect_leaks=0"})
     got = lines[0] if lines else "<no-output rc=%d>" % rc
-    want_ni = cfg in ("aesni", "aesni_wa") and host_has_aes()
+    want_ni = cfg in ("aesni", "aesni_wa", "aesni_m8") and host_has_aes()
     ctx.count("aes.path.%s.%s" % (cfg, got.replace(" ", "_")))
-    if cfg in ("aesni", "aesni_wa") and not host_has_aes():
+    if cfg in ("aesni", "aesni_wa", "aesni_m8") and not host_has_aes():
         ctx.notes.append("host CPU lacks AES-NI: the aesni configuration runs its software fallback; AES-NI path NOT covered")
     if want_ni and not got.startswith("path 1"):
         ctx.fail(sub, "diff", "path",
@@ -360,7 +365,7 @@ def _run_cfg(ctx, sub, cfg, cases, mexe, slow_every=0):
     if key not in _SPEC_CACHE:
         _SPEC_CACHE[key] = run_balanced(mexe, ["spec " + c for c in cases], args=("sw",))[0]
     spec = _SPEC_CACHE[key]
-    if cfg in ("aesni", "aesni_wa"):
+    if cfg in ("aesni", "aesni_wa", "aesni_m8"):
         model, _ = run_balanced(mexe, cases, args=("aesni",))
     elif cases and cases[0].startswith("ctr"):
         model, _ = run_balanced(mexe, cases, args=("sw",))     # portable loop over the spec cipher
@@ -412,7 +417,7 @@ def check_aes_ctr(ctx):
         return
     allc, seen = [], set()
     cases = gen_ctr(ctx)
-    for cfg in ("aesni", "sw", "aesni_wa"):
+    for cfg in ("aesni", "sw", "aesni_wa", "aesni_m8"):
         impl = _run_cfg(ctx, sub, cfg, cases, mexe)
         if impl:
             allc += cases
